@@ -73,13 +73,20 @@ class JaggedArray:
                         )
                         offset += len(flattenedList)
                         flattenedArray.extend(flattenedList)
-            elif isinstance(arr, (int, float)):
+            elif isinstance(arr, (int, float, np.integer, np.floating)):
                 offsets.append(offset)
                 shapes.append((1,))
                 offset += 1
                 flattenedArray.append(arr)
             elif arr is None:
                 nones.append(i)
+            else:
+                # silently skipping the entry would shift every later entry onto the wrong object
+                raise TypeError(
+                    "Cannot store entry {} of `{}` in a JaggedArray: unsupported type {}".format(
+                        i, paramName, type(arr)
+                    )
+                )
 
         self.flattenedArray = np.array(flattenedArray)
         self.offsets = np.array(offsets)
